@@ -178,6 +178,27 @@ def do_unary_12d(d, c, sc, st, nz, ex, vals):
                     MON.check("iindexes.iindex.%s/ensures-wf-and-content-unchanged-after-raw-entries-without-rows" % name,
                               ok and not w and np.array_equal(view(x), d) and x.common == c,
                               lambda: "%s({%r: %s}) left %r (defects %r)" % (name, key, vname, dict(x), w), dict(ex, entries={"key": list(key), "rows": vname}))
+        # raw entries whose row ids come in another container / integer dtype (a list, int64 from numpy.nonzero, int32):
+        # what is stored must be uint32 and the content the one the operation documents
+        col = tails[0]
+        column = d if d.ndim == 1 else d[(slice(None),) + col]
+        free = np.nonzero(column == c)[0]  # rows that hold the common value in that column
+        if len(free):
+            for key in [(absent,) + col] + present[:1]:
+                if key[1:] != col:
+                    continue
+                for name in ("union_update", "update"):
+                    for rows, rname in ((free.astype(np.int64), "int64 array"), (free.astype(np.int32), "int32 array"), (free.tolist(), "python list"),
+                                        (free.astype(np.uint64), "uint64 array")):
+                        x = mk(d, c)
+                        want = d.copy()
+                        want[(free,) + col] = key[0]
+                        ok, _ = _try(lambda: getattr(x, name)({key: rows}))
+                        w = wf(x) if ok else ["raised"]
+                        MON.check("iindexes.iindex.%s/ensures-wf-and-documented-content-for-row-ids-in-another-container-or-dtype" % name,
+                                  ok and not w and np.array_equal(view(x), want),
+                                  lambda: "%s({%r: %s %r}) left %r (defects %r)" % (name, key, rname, free.tolist(), {k: (str(getattr(v, "dtype", type(v).__name__)), list(v)) for k, v in dict(x).items()}, w),
+                                  dict(ex, entries={"key": list(key), "rows": free.tolist(), "as": rname}))
         st.call(nz)
     # update: every partial assignment of cells
     if d.size <= 4 and d.ndim <= 2:
